@@ -109,14 +109,14 @@ impl Default for PurlParts {
                         || r->Ok_0.parts.qualifiers.qualifiers@[i].0.0@ == checksum_key(),''',
                 sig_rw=[('R0', r'<T as PurlShape>::Error', 'T::Error', '*')],
                 rw=[('R0', r'crate::PurlField::Name', 'PurlField::Name', '*'),
-                    ('R5', r'self\.parts\.qualifiers\.retain\(\|_, v\| !v\.is_empty\(\)\);', 'x_retain_nonempty(&mut self.parts.qualifiers);', 1),
-                    ('R5', r'self\.parts\.qualifiers\.try_get_typed::<Checksum>\(\)', 'x_try_get_typed_checksum(&self.parts.qualifiers)', 1),
-                    ('R2', r'SmallString::try_from\(checksum\)', 'x_checksum_to_text(checksum)', 1),
+                    ('R5', r'self\.parts\.qualifiers\.retain\(\|_, v\| !v\.is_empty\(\)\);', 'x_retain_nonempty(&mut self.parts.qualifiers);', '*'),
+                    ('R5', r'self\.parts\.qualifiers\.try_get_typed::<Checksum>\(\)', 'x_try_get_typed_checksum(&self.parts.qualifiers)', '*'),
+                    ('R2', r'SmallString::try_from\(checksum\)', 'x_checksum_to_text(checksum)', '*'),
                     # R8: `e?` written out as its definition where the converted error value matters to the contract
                     ('R8', r'(x_try_get_typed_checksum\(&self\.parts\.qualifiers\))\?',
-                     r'(match \1 { Ok(v_) => v_, Err(e_) => return Err(From::from(e_)) })', 1),
+                     r'(match \1 { Ok(v_) => v_, Err(e_) => return Err(From::from(e_)) })', '*'),
                     ('R8', r'(x_checksum_to_text\(checksum\))\?',
-                     r'(match \1 { Ok(v_) => v_, Err(e_) => return Err(From::from(e_)) })', 1)],
+                     r'(match \1 { Ok(v_) => v_, Err(e_) => return Err(From::from(e_)) })', '*')],
                 hints=[(r'self\.package_type\.finish\(&mut self\.parts\)\?;', 'before',
                         '        let ghost t0 = self.package_type;\n        let ghost p0 = self.parts;'),
                        (r'if self\.parts\.name\.is_empty\(\) \{', 'before',
